@@ -49,7 +49,7 @@ class CellState:
 
 
 class Frame:
-    __slots__ = ('item', 'locals', 'boxed', 'mem', 'own_cells')
+    __slots__ = ('item', 'locals', 'boxed', 'mem', 'own_cells', 'visits')
 
     def __init__(self, item, mem):
         self.item = item
@@ -57,12 +57,14 @@ class Frame:
         self.boxed = {}
         self.mem = mem
         self.own_cells = []
+        self.visits = None
 
     def fork(self):
         f = Frame(self.item, self.mem)
         f.locals = dict(self.locals)
         f.boxed = dict(self.boxed)
         f.own_cells = list(self.own_cells)
+        f.visits = dict(self.visits) if self.visits else None
         return f
 
 
@@ -487,6 +489,8 @@ class Interp:
         if k == 'assoc':
             if c.value.endswith('::ALIGN'):
                 return 1
+            if c.value.endswith('::SIZE'):
+                return 8
             raise Unsupported('assoc const ' + c.value)
         if k == 'float':
             return Opaque('float', c.value)
@@ -568,7 +572,7 @@ class Interp:
         if v is POISON:
             return POISON
         if isinstance(v, Adt):
-            return ('disc', v)
+            return Disc(v)
         if isinstance(v, (bool, z3.BoolRef)):
             return v
         raise EngineError('discriminant of %s' % type(v).__name__)
@@ -672,10 +676,10 @@ class Interp:
             else:
                 raise EngineError('cannot type binop in ' + stmt.text)
         if info[0] == 'ptr':
-            # pointer alignment idiom: addresses are modelled as aligned (0)
+            # pointer alignment idiom: addresses are modelled as non-null and aligned
             if op in ('Eq', 'Ne'):
                 raise EngineError('pointer comparison ' + stmt.text)
-            return 0
+            return 4096
         if info[0] == 'bool':
             if op in ('BitAnd',):
                 return gand(a, b)
@@ -869,7 +873,7 @@ class Interp:
                 return v
             if isinstance(v, (SRef, MRef)):
                 if ty in ('usize',):
-                    return 0          # address: modelled as aligned
+                    return 4096       # address: modelled as non-null and aligned
                 return v
             if isinstance(v, Seq):
                 return v
@@ -999,6 +1003,15 @@ class Interp:
                 t = block.term
                 k = t.kind
                 if k == 'goto':
+                    if t.a <= bb:
+                        # back edge: bounded unrolling
+                        if fr.visits is None:
+                            fr.visits = {}
+                        n = fr.visits.get(t.a, 0) + 1
+                        fr.visits[t.a] = n
+                        if n > self.cfg.get('loop_bound', 40):
+                            outs.append(Outcome('panic', guard, None, None, 'UNWIND: loop bound %d exceeded @%s' % (self.cfg.get('loop_bound', 40), item.last)))
+                            break
                     bb = t.a
                     continue
                 if k == 'return':
